@@ -71,6 +71,15 @@ def rstr(x):
     return str(f.numerator) if f.denominator == 1 else "%d/%d" % (f.numerator, f.denominator)
 
 
+def fstr(q):
+    """short human-readable form of a rational that never overflows (for messages)"""
+    try:
+        return "%.9g" % float(frac(q))
+    except (OverflowError, ValueError):
+        t = rstr(q)
+        return t if len(t) < 60 else t[:28] + "…" + t[-28:]
+
+
 def rparse(s):
     if isinstance(s, (int, float)):
         return frac(s)
